@@ -6,6 +6,7 @@ package c08
 import (
 	"encoding/json"
 	"fmt"
+	"strings"
 	"testing"
 
 	"github.com/go-openapi/spec"
@@ -52,7 +53,11 @@ func genCase(t *rapid.T) Case {
 		doc := gen.Schema(t, o)
 		c.Def = gen.Text(doc)
 		for i := 0; i < nvals; i++ {
-			c.Values = append(c.Values, gen.Text(gen.InstanceFor(t, doc, 12)))
+			v := gen.Text(gen.InstanceFor(t, doc, 12))
+			if gen.UniformIndex(t, 4, "asjsonnumber") == 0 {
+				v = tokNumber + v
+			}
+			c.Values = append(c.Values, v)
 		}
 		c.Root = rapid.SampledFrom([]string{"", "root"}).Draw(t, "root")
 	default:
@@ -104,8 +109,19 @@ func build(c Case) (validator, error) {
 	return nil, fmt.Errorf("unknown kind %q", c.Kind)
 }
 
+// tokNumber in front of a value text: its numbers are handed over as json.Number (a decoder with UseNumber)
+const tokNumber = "\x00number:"
+
+func valueText(text string) string { return strings.TrimPrefix(text, tokNumber) }
+
 func run(v validator, text string) obs.Outcome {
-	data, err := obs.DecodeStd(text)
+	var data interface{}
+	var err error
+	if strings.HasPrefix(text, tokNumber) {
+		data, err = obs.DecodeNumber(valueText(text))
+	} else {
+		data, err = obs.DecodeStd(text)
+	}
 	if err != nil {
 		return obs.Outcome{Panic: "harness: value does not decode"}
 	}
@@ -175,7 +191,7 @@ func check(c Case) (out ev.Outcome) {
 		if !got.Valid {
 			invalid = true
 		}
-		if v, err := refmodel.Decode([]byte(c.Values[i])); err == nil {
+		if v, err := refmodel.Decode([]byte(valueText(c.Values[i]))); err == nil {
 			kinds[refmodel.Kind(v)] = true
 		}
 		if seen[i] && prev != i && prev >= 0 {
